@@ -12,7 +12,7 @@ PREP = {"e2e.C01.roundtrip": "w.", "e2e.C07.corrupt": "w."}
 
 # ops whose implementation observation carries extra statistics after the first word (e.g. "same ok",
 # "same conferr"): only the first word is compared with the model's answer
-FIRST_WORD_FNS = {"c08.twin", "c08.known", "c15.versions", "c15.known"}
+FIRST_WORD_FNS = {"c08.twin", "c08.known", "c15.versions", "c15.known", "c02.closure", "c02.known"}
 
 TRUSTED_BASE = [
     "Lean 4.33.0 kernel (thorough tier: leanchecker re-check of the compiled property modules)",
@@ -46,13 +46,37 @@ def _d16_last_first_elem(stream, op, impl_out):
     return op.split("\t")[0] == "c15.known"
 
 
+def _c02_witness(kind):
+    def f(stream, op, impl_out):
+        t = op.split("\t")
+        return t[0] == "c02.known" and len(t) > 1 and t[1] == kind
+    return f
+
+
 KNOWN_CLASSES = {
+    "c02_incell_map_wellknown_value": _c02_witness("incell-map-wellknown-value"),
+    "c02_later_element_column_missing": _c02_witness("later-element-column-missing"),
+    "c02_keyed_list_struct_key": _c02_witness("keyed-list-struct-key"),
     "d16_last_first_elem": _d16_last_first_elem,
     # D35: blank data rows are parsed like any row: with present / sequence / fixed / size properties an appended blank row changes the outcome
     "padrows_with_row_props": _padrows_with_row_props,
 }
 
 PROPS = {
+    "C02": {
+        "lean_modules": ["TableauVerif.Props.C02"],
+        "oracles": ["c02.closure", "c02.known"],
+        "streams": [
+            ("e2e.C02.closure", 400, 20000, 8),
+            ("corr.protogen.parseHeader", 3000, 100000),
+            ("corr.types.misc", 6000, 100000),
+        ],
+        "assumptions": [
+            "closure is decided end to end: real GenProto, an independent protoparse re-parse of every written .proto (plus identifier and field-name/json-name uniqueness checks on the descriptors), then real GenConf on the same directory with its error classified by code: E2000..E2021 and a short list of uncoded reasons are data-cell errors, everything else (proto parse error, E0001/E0003/E2014/E2015, unknown type) is schema-level",
+            "input space: sheets generated from schema trees (nested cross-cell / in-cell structs, horizontal lists and maps, in-cell lists and maps, vertical maps and lists, enums from a type sheet, well-known types, shared nested type names), book-level and sheet-level options (Transpose, Nested, Sep, OrderedMap, Alias, FieldPresence, Optional, '#' header rows) and everyday slips (repeated name, blank column, junk data cell); arbitrary garbage in type cells is C17's input space, not this one",
+            "theorem scope: legality of generated field identifiers (ToSnake); the header-parser model is tied by corr.protogen.parseHeader; emitted proto text and option text are not modelled (partial)",
+        ],
+    },
     "C15": {
         "lean_modules": ["TableauVerif.Props.C15"],
         "oracles": ["c15.append", "c15.versions", "c15.known"],
